@@ -135,8 +135,9 @@ class Analyzer:
                 if sm is not None and not sm.cfg.loops() and all(st.get('local') for st in sm.stores):
                     v = sm.ret
                     if isinstance(v, tuple) and v and v[0] == 'ref' and v[1][0] in ('p', 'h') and \
-                            not any(isinstance(x, tuple) and x and x[0] in ('call', 'after', 'unk', 'loop', 'var', 'ite') and
-                                    not (x[0] == 'call' and False) for x in walk(v)):
+                            not any(isinstance(x, tuple) and x and x[0] in ('after', 'unk', 'loop', 'var', 'ite') for x in walk(v)) and \
+                            not any(c_['callee'] is None or (c_['callee'] not in self.facts.bodies and not c_['callee'].startswith('core::'))
+                                    for c_ in sm.calls):
                         r = v
             finally:
                 self._proj_busy.discard(key)
